@@ -21,15 +21,44 @@ PINS = os.path.join(os.path.dirname(os.path.abspath(__file__)), 'pins')
 
 
 def _find(tree: ast.AST, qualname: str) -> ast.AST:
+    """The definition Python binds to `qualname`.  A scope that defines the name more than once (a second `def`/`class`
+    further down silently replaces the first: Python binds the LAST one) fails closed: the pin would otherwise describe
+    code that never runs."""
     node: ast.AST = tree
     for part in qualname.split('.'):
-        for ch in ast.iter_child_nodes(node):
-            if isinstance(ch, (ast.FunctionDef, ast.ClassDef, ast.AsyncFunctionDef)) and ch.name == part:
-                node = ch
-                break
-        else:
+        hits = [ch for ch in ast.iter_child_nodes(node)
+                if isinstance(ch, (ast.FunctionDef, ast.ClassDef, ast.AsyncFunctionDef)) and ch.name == part]
+        if not hits:
             raise KeyError(qualname)
+        if len(hits) > 1:
+            raise KeyError('%s: %d definitions of %r in one scope (lines %s): the last one wins at run time; pin refuses'
+                           % (qualname, len(hits), part, ', '.join(str(h.lineno) for h in hits)))
+        node = hits[0]
     return node
+
+
+def _rebindings(tree: ast.AST, qualname: str) -> typing.List[ast.stmt]:
+    """Statements of the enclosing scope that re-bind the pinned name after its definition (`f = decorate(f)`,
+    `del f`, `f: T = ...`): they change what the name means at run time, so they are part of the pin."""
+    scope: ast.AST = tree
+    parts = qualname.split('.')
+    for part in parts[:-1]:
+        scope = _find(scope, part)
+    name = parts[-1]
+    out: typing.List[ast.stmt] = []
+    for ch in ast.iter_child_nodes(scope):
+        targets: typing.List[ast.expr] = []
+        if isinstance(ch, ast.Assign):
+            targets = list(ch.targets)
+        elif isinstance(ch, (ast.AnnAssign, ast.AugAssign)):
+            targets = [ch.target]
+        elif isinstance(ch, ast.Delete):
+            targets = list(ch.targets)
+        for t in targets:
+            for n in ast.walk(t):
+                if isinstance(n, ast.Name) and n.id == name:
+                    out.append(ch)
+    return out
 
 
 class _Norm(ast.NodeTransformer):
@@ -79,7 +108,10 @@ def normalized_dump(rel_path: str, qualname: str) -> str:
         if hasattr(node, 'type_comment'):
             node.type_comment = None
     fn.name = 'f'
-    return ast.dump(fn, annotate_fields=True, include_attributes=False, indent=1)
+    text = ast.dump(fn, annotate_fields=True, include_attributes=False, indent=1)
+    for stmt in _rebindings(gen.parse_repo(rel_path), qualname):
+        text += '\n# REBOUND in the enclosing scope: ' + ast.dump(stmt, annotate_fields=True, include_attributes=False)
+    return text
 
 
 def check_pin(name: str, targets: typing.List[typing.Tuple[str, str]]) -> typing.Tuple[bool, str]:
